@@ -632,6 +632,9 @@ def interpret(prog, max_steps=200000):
 # ------------------------------------------------------------------------------------------
 # printer
 
+# separators of the printer; checks/c29.py swaps them for markers that are replaced by random choices
+LSEP, SSEP, NSEP = ", ", "; ", ""
+
 PREC = {"and": 1, "or": 1, "==": 2, "!=": 2, "..": 3, "<": 5, "<=": 5, ">": 5, ">=": 5, "+": 6, "-": 6, "*": 7, "/": 7, "%": 8, "^": 9}
 
 
@@ -677,33 +680,33 @@ def pexpr(e, em=None, top=False):
     if k == "block":
         return pblock_inline(e)
     if k == "match":
-        arms = ", ".join("%s -> %s" % (ppat(p), pexpr(b)) for p, b in e[3])
+        arms = LSEP.join("%s -> %s" % (ppat(p), pexpr(b)) for p, b in e[3])
         s = "match %s { %s }" % (pexpr(e[2]), arms)
         return "(%s)" % s if not top else s
     if k == "call":
-        return "%s(%s)" % (e[2], ", ".join(pexpr(a) for a in e[3]))
+        return "%s(%s)" % (e[2], LSEP.join(pexpr(a) for a in e[3]))
     if k == "calll":
-        return "%s(%s)" % (pexpr(e[2]), ", ".join(pexpr(a) for a in e[3]))
+        return "%s(%s)" % (pexpr(e[2]), LSEP.join(pexpr(a) for a in e[3]))
     if k == "lam":
-        ps = ", ".join("%s: %s" % (n, ann(t)) for n, t in e[2])
+        ps = LSEP.join("%s: %s" % (n, ann(t)) for n, t in e[2])
         body = pexpr(e[3]) if e[3][0] != "block" else pblock_inline(e[3])
         return "((%s) -> %s)" % (ps, body) if not top else "(%s) -> %s" % (ps, body)
     if k == "tuple":
-        return "(" + ", ".join(pexpr(x) for x in e[2]) + ")"
+        return "(" + LSEP.join(pexpr(x) for x in e[2]) + ")"
     if k == "array":
-        return "[" + ", ".join(pexpr(x) for x in e[2]) + "]"
+        return "[" + LSEP.join(pexpr(x) for x in e[2]) + "]"
     if k == "struct":
-        return "%s(%s)" % (e[2], ", ".join(pexpr(x) for x in e[3]))
+        return "%s(%s)" % (e[2], LSEP.join(pexpr(x) for x in e[3]))
     if k == "variant":
         if not e[4]:
             return "%s.%s" % (e[2], e[3])
-        return "%s.%s(%s)" % (e[2], e[3], ", ".join(pexpr(x) for x in e[4]))
+        return "%s.%s(%s)" % (e[2], e[3], LSEP.join(pexpr(x) for x in e[4]))
     if k == "field":
         return "%s.%s" % (pexpr(e[2]), e[3])
     if k == "index":
         return "%s[%s]" % (pexpr(e[2]), pexpr(e[3]))
     if k == "method":
-        return "%s.%s(%s)" % (pexpr(e[2]), e[3], ", ".join(pexpr(a) for a in e[4]))
+        return "%s.%s(%s)" % (pexpr(e[2]), e[3], LSEP.join(pexpr(a) for a in e[4]))
     if k == "try":
         return "%s?" % pexpr(e[2])
     if k == "unwrap":
@@ -711,7 +714,7 @@ def pexpr(e, em=None, top=False):
     if k == "str":
         return "ToString.str(%s)" % pexpr(e[2])
     if k == "hcall":
-        return "%s(%s)" % (e[2], ", ".join(pexpr(a) for a in e[3]))
+        return "%s(%s)" % (e[2], LSEP.join(pexpr(a) for a in e[3]))
     raise ValueError(k)
 
 
@@ -733,15 +736,15 @@ def ppat(p):
             return str(v)
         return strlit(v)
     if k == "ptuple":
-        return "(" + ", ".join(ppat(q) for q in p[1]) + ")"
+        return "(" + LSEP.join(ppat(q) for q in p[1]) + ")"
     if k == "pvariant":
         if not p[2]:
             return "." + p[1]
-        return ".%s(%s)" % (p[1], ", ".join(ppat(q) for q in p[2]))
+        return ".%s(%s)" % (p[1], LSEP.join(ppat(q) for q in p[2]))
     if k == "pstruct":
         if p[3]:
-            return "%s(%s)" % (p[1], ", ".join("%s = %s" % (f, ppat(q)) for f, q in p[2]))
-        return "%s(%s)" % (p[1], ", ".join(ppat(q) for f, q in p[2]))
+            return "%s(%s)" % (p[1], LSEP.join("%s = %s" % (f, ppat(q)) for f, q in p[2]))
+        return "%s(%s)" % (p[1], LSEP.join(ppat(q) for f, q in p[2]))
     if k == "por":
         return " | ".join(ppat(q) for q in p[1])
     raise ValueError(p)
@@ -760,9 +763,9 @@ def pstmt_inline(s):
     if k == "print":
         return "%s(%s)" % ("println" if s[2] else "print", pexpr(s[1], top=True))
     if k == "while":
-        return "while %s { %s }" % (pexpr(s[1]), "; ".join(pstmt_inline(x) for x in s[2]))
+        return "while %s { %s }" % (pexpr(s[1]), SSEP.join(pstmt_inline(x) for x in s[2]))
     if k == "for":
-        return "for %s in %s { %s }" % (ppat(s[1]), piter(s), "; ".join(pstmt_inline(x) for x in s[4]))
+        return "for %s in %s { %s }" % (ppat(s[1]), piter(s), SSEP.join(pstmt_inline(x) for x in s[4]))
     if k == "break":
         return "break"
     if k == "continue":
@@ -787,46 +790,50 @@ def pblock_inline(b):
     parts = [pstmt_inline(s) for s in b[2]]
     if b[3] is not None:
         parts.append(pexpr(b[3], top=True))
-    return "{ " + "; ".join(parts) + " }"
+    return "{ " + SSEP.join(parts) + " }"
 
 
-def emit_stmt(em, s, linemap):
+def emit_stmts(em, stmts, linemap, more=False):
+    """statement list; a statement that is followed by another one (or by the block's final
+    expression when `more`) gets the optional-separator marker NSEP"""
+    for i, x in enumerate(stmts):
+        emit_stmt(em, x, linemap, sep=(i + 1 < len(stmts) or more))
+
+
+def emit_stmt(em, s, linemap, sep=False):
     """multi-line statement printer; records the line of every statement id in linemap"""
     k = s[0]
+    tail = NSEP if sep else ""
     if k == "while":
         em.w("while %s {" % pexpr(s[1]))
         em.ind += 1
-        for x in s[2]:
-            emit_stmt(em, x, linemap)
+        emit_stmts(em, s[2], linemap)
         em.ind -= 1
-        em.w("}")
+        em.w("}" + tail)
     elif k == "for":
         em.w("for %s in %s {" % (ppat(s[1]), piter(s)))
         em.ind += 1
-        for x in s[4]:
-            emit_stmt(em, x, linemap)
+        emit_stmts(em, s[4], linemap)
         em.ind -= 1
-        em.w("}")
+        em.w("}" + tail)
     elif k == "expr" and s[1][0] == "if" and s[1][1] == VOID:
         e = s[1]
         em.w("if %s {" % pexpr(e[2]))
         em.ind += 1
-        for x in e[3][2]:
-            emit_stmt(em, x, linemap)
+        emit_stmts(em, e[3][2], linemap, more=e[3][3] is not None)
         if e[3][3] is not None:
             em.w(pexpr(e[3][3], top=True))
         em.ind -= 1
         if e[4] is not None:
             em.w("} else {")
             em.ind += 1
-            for x in e[4][2]:
-                emit_stmt(em, x, linemap)
+            emit_stmts(em, e[4][2], linemap, more=e[4][3] is not None)
             if e[4][3] is not None:
                 em.w(pexpr(e[4][3], top=True))
             em.ind -= 1
-        em.w("}")
+        em.w("}" + tail)
     else:
-        em.w(pstmt_inline(s))
+        em.w(pstmt_inline(s) + tail)
     linemap[id(s)] = len(em.lines)
 
 
@@ -848,20 +855,18 @@ def emit(prog, before_main=None):
         for v, ts in variants:
             em.w("  | %s%s" % (v, ("(" + ", ".join(ann(t) for t in ts) + ")") if ts else ""))
     for f in prog["funcs"]:
-        ps = ", ".join("%s: %s" % (n, ann(t)) for n, t in f["params"])
+        ps = LSEP.join("%s: %s" % (n, ann(t)) for n, t in f["params"])
         em.w("fn %s(%s) -> %s {" % (f["name"], ps, ann(f["ret"])))
         em.ind += 1
         b = f["body"]
-        for s in b[2]:
-            emit_stmt(em, s, linemap)
+        emit_stmts(em, b[2], linemap, more=b[3] is not None)
         if b[3] is not None:
             em.w(pexpr(b[3], top=True))
         em.ind -= 1
         em.w("}")
     for ln in before_main or []:
         em.w(ln)
-    for s in prog["main"]:
-        emit_stmt(em, s, linemap)
+    emit_stmts(em, prog["main"], linemap)
     return "\n".join(em.lines) + "\n", linemap
 
 
